@@ -10,6 +10,7 @@ Vocabulary
 from __future__ import annotations
 
 import hashlib
+import zlib
 import json
 import os
 import random
@@ -69,7 +70,10 @@ class Ctx:
                 self.current = (stream, index)
             return hit
         k, n = self.shard
-        mine = index % n == k
+        # cases are dealt to the workers by a hash of (stream, index), not by `index % n`: the streams that walk a
+        # deterministic grid (class = index % 6, …) would otherwise put every case of one kind on workers of one parity,
+        # i.e. — for the properties whose workers alternate between the two 64-bit modes — in ONE mode only
+        mine = zlib.crc32(f'{stream}:{index}'.encode()) % n == k
         if mine:
             self.current = (stream, index)       # the case being evaluated (used when it does not terminate)
             pf = getattr(self, 'progress_file', None)
